@@ -85,6 +85,15 @@ func (net *Net) CheckSafety(s *Shadow) string {
 			if prevID, ok := s.Decided[h-1]; ok && !block.LastBlockID.Equals(prevID) {
 				return fmt.Sprintf("node %d decided at height %d a block built on %X, but %X was decided at height %d", k, h, block.LastBlockID.Hash, prevID.Hash, h-1)
 			}
+			// the decided block's LastCommit is itself a commit for the block decided before, under the validators of
+			// that height (reference tally, not VerifyCommit)
+			if prevID, ok := s.Decided[h-1]; ok && h-1 >= net.Cfg.InitialHeight {
+				if pv, err := s.Store.LoadValidators(h - 1); err == nil {
+					if err := lib.RefCommitCheck(net.Cfg.ChainID, pv, prevID, h-1, block.LastCommit); err != nil {
+						return fmt.Sprintf("node %d decided block %d whose LastCommit does not justify block %d: %v", k, h, h-1, err)
+					}
+				}
+			}
 			if prev, ok := s.Decided[h]; ok {
 				if !prev.Equals(id) {
 					return fmt.Sprintf("AGREEMENT: node %d decided %X at height %d, node %d decided %X", k, id.Hash, h, s.By[h], prev.Hash)
